@@ -11,6 +11,7 @@ fn profile(thorough: bool) -> Profile {
         del_dim: 1,
         add_attr: 12,
         del_attr: 6,
+        rename: 8,
         disable: 8,
         update: 7,
         rekey: 12,
